@@ -202,6 +202,10 @@ def parse_rvalue(s):
         return Rvalue("cast", a=parse_operand(m.group(1)), ty=m.group(2).strip(), how=m.group(3))
     if s.startswith(("copy ", "move ", "const ")):
         return Rvalue("use", a=parse_operand(s))
+    # function item / tuple-variant constructor reified to a fn pointer:  path as fn(..) -> .. (PointerCoercion(ReifyFnPointer..))
+    m = re.fullmatch(r"([A-Za-z_<][^ ]*) as (?:unsafe )?fn\(.*\)(?: -> .+)? \(PointerCoercion\(ReifyFnPointer.*\)", s, re.S)
+    if m:
+        return Rvalue("use", a=Operand("fn", m.group(1)))
     # tuple aggregate
     if s.startswith("(") and match_paren(s, 0) == len(s) - 1:
         inner = s[1:-1].strip()
@@ -515,7 +519,8 @@ def parse_function(hdr, body):
     return f
 
 
-SOURCE_CONSTS = {}      # NAME -> (type, value): integer-literal constants of the crate (filled by scan_source_types)
+SOURCE_CONSTS = {}
+SOURCE_GENERICS = {}      # fn name -> [generic type/const parameter names] (lifetimes left out), from the source      # NAME -> (type, value): integer-literal constants of the crate (filled by scan_source_types)
 
 
 # ---------------------------------------------------------------- type layout from the crate's source (variant / field order)
@@ -559,7 +564,66 @@ def scan_source_types(repo_src):
                     consts.setdefault(m.group(1), (m.group(2), int(m.group(3).replace("_", ""))))
     SOURCE_CONSTS.clear()
     SOURCE_CONSTS.update(consts)
+    gens = {}
+    for root, _, files in os.walk(repo_src):
+        for fn in files:
+            if fn.endswith(".rs"):
+                txt = re.sub(r"//[^\n]*", "", open(os.path.join(root, fn)).read())
+                for m in re.finditer(r"\bfn\s+([A-Za-z0-9_]+)\s*<", txt):
+                    i, depth = m.end(), 1
+                    while i < len(txt) and depth:
+                        if txt[i] == "<":
+                            depth += 1
+                        elif txt[i] == ">" and txt[i - 1] != "-":
+                            depth -= 1
+                        i += 1
+                    params = []
+                    for item in split_top(txt[m.end():i - 1]):
+                        item = item.strip()
+                        if not item or item.startswith("'"):
+                            continue
+                        if item.startswith("const "):
+                            params.append(item[6:].split(":")[0].strip())
+                            continue
+                        mm = re.match(r"([A-Za-z_][A-Za-z0-9_]*)", item)
+                        if mm:
+                            params.append(mm.group(1))
+                    if m.group(1) in gens and gens[m.group(1)] != params:
+                        gens[m.group(1)] = None       # ambiguous: two generic fns of that name
+                    else:
+                        gens[m.group(1)] = params
+    SOURCE_GENERICS.clear()
+    SOURCE_GENERICS.update(gens)
     enums.setdefault("Option", ["None", "Some"])
     enums.setdefault("Result", ["Ok", "Err"])
     enums.setdefault("ControlFlow", ["Continue", "Break"])
     return enums, structs
+
+
+def find_by_signature(funcs, arg_types, ret_rx):
+    """functions whose argument types (spaces removed) equal arg_types and whose return type matches ret_rx: used when a private
+    function of the crate is not found under its usual name (a rename is not a change of behaviour)"""
+    want = [a.replace(" ", "") for a in arg_types]
+    hit = []
+    for n, fn in funcs.items():
+        if "{closure" in n or "promoted[" in n:
+            continue
+        if [t.replace(" ", "") for _, t in fn.args] == want and re.search(ret_rx, (fn.ret or "").replace(" ", "")):
+            hit.append(fn)
+    return hit
+
+
+def sentence_parser_fn(funcs):
+    f = funcs.get("parse_nmea_sentence")
+    if f is None:
+        hit = find_by_signature(funcs, ["&[u8]"], r"^(?:std::result::|core::result::)?Result<\(&\[u8\],\(&\[u8\],(?:\w+::)*AisSentence,u8\)\),nom::Err<")
+        f = hit[0] if len(hit) == 1 else None
+    return f
+
+
+def checksum_fn(funcs):
+    f = next((fn for n, fn in funcs.items() if n.endswith("::check_checksum") or n == "check_checksum"), None)
+    if f is None:
+        hit = find_by_signature(funcs, ["&[u8]", "u8"], r"^(?:std::result::|core::result::)?Result<u8,(?:\w+::)*Error>$")
+        f = hit[0] if len(hit) == 1 else None
+    return f
